@@ -89,6 +89,8 @@ def make_cases(rng, tier):
                                             rng.choice([0, 3, (1 << 64) - 1]), rng.choice([0, 9, 1000]), ",".join(orders)))
         ops += ["SNAP", "MATCH 4 u7002", "REBUILD " + rng.choice(lvl.VIAS)]
         cs.append((g.price, ops))
+    cs += deep_histories(rng, 8 if tier == "quick" else 200, rebuild=True)
+    cs += deep_histories(rng, 2 * len(lvl.VIAS) if tier == "quick" else 120, rebuild=True, sizes=[257, 258, 300], mixed=True)
     return cs
 
 
